@@ -4,7 +4,7 @@
 MC          : Merge_MC with Faults: every reachable state of the merge protocol over every small
               (old root, cset) pair is a crash point, any syscall may fail with EIO; invariant CrashInv =
               the C19 clauses of Merge!JudgeCrash; the write-in-place variant must violate it.
-spec -> code: a seeded sample (12 / 450 of 1375) of the (old, cset) pairs of Merge_Cases is merged for real and
+spec -> code: a seeded sample (12 / 350 of 1375) of the (old, cset) pairs of Merge_Cases is merged for real and
               crashed at every mutation.
 code -> spec: seeded random small trees over colliding pre-existing roots (see C18).  Per scenario
               (1) the recorded syscall trace is replayed through FsModel by Merge_Trace and the clauses
@@ -78,8 +78,8 @@ def run(ck):
         scenarios = [ck.replay_case["detail"]["scenario"]]
     else:
         exported = m18.export_scenarios(ck)
-        exported = r_.sample(exported, ck.pick(12, 450))
-        scenarios = exported + [m18.gen_scenario(r_, ck.pick(4, 6)) for _ in range(ck.pick(14, 220))]
+        exported = r_.sample(exported, ck.pick(12, 350))
+        scenarios = exported + [m18.gen_scenario(r_, ck.pick(4, 6)) for _ in range(ck.pick(14, 180))]
     events, infos, points = [], {}, 0
     for tid, sc in enumerate(scenarios):
         w = m18.World(os.path.join(base, f"w{tid}"), sc)
